@@ -298,11 +298,11 @@ func c11Exchanges(p *core.Prog, r *core.Report) {
 			if !isRet || len(ret.Results) != 1 {
 				return
 			}
-			if k, isK := ret.Results[0].(*ssa.Const); isK && k.IsNil() {
+			if k, isK := core.ReturnValues(ret)[0].(*ssa.Const); isK && k.IsNil() {
 				return
 			}
 			n++
-			if !fromFailed(ret.Results[0], 0) {
+			if !fromFailed(core.ReturnValues(ret)[0], 0) {
 				ok = false
 			}
 		})
@@ -513,7 +513,7 @@ func c11Dropped(p *core.Prog, r *core.Report) {
 		r.Check(rm, "C11-R3", fname(f), "removeClosedConn(c)", p.Pos(f.Pos()), "closed connections leave the channel's table", "closed connections are not removed from the channel")
 		// peers for both host:ports
 		keys := map[string]bool{}
-		for _, ls := range peerLookups(f) {
+		for _, ls := range peerLookupsDeep(p, f) {
 			keys[desc(ls.Key)] = true
 		}
 		var ks []string
@@ -522,15 +522,15 @@ func c11Dropped(p *core.Prog, r *core.Report) {
 		}
 		sort.Strings(ks)
 		both := len(keys) >= 2
-		told := len(core.CallsIn(f, "Peer.connectionCloseStateChange"))
+		told := len(p.CallsDeep(f, 1, "Peer.connectionCloseStateChange"))
 		for _, a := range f.AnonFuncs {
 			if len(core.CallsIn(a, "Peer.connectionCloseStateChange")) > 0 {
-				told += len(peerLookups(f)) // the closure is the notifier: once per lookup site
+				told += len(peerLookupsDeep(p, f)) // the closure is the notifier: once per lookup site
 			}
 		}
 		// neither notification may depend on the other peer being absent
 		indep := true
-		for _, ls := range peerLookups(f) {
+		for _, ls := range peerLookupsDeep(p, f) {
 			if factsAt(ls.At.Block()).hasBool(func(v ssa.Value) bool {
 				ex, ok := v.(*ssa.Extract)
 				if !ok || ex.Index != 1 {
